@@ -1,1 +1,2 @@
 import Dalek.Props.C10.NonInterference
+import Dalek.Props.C10.BranchSites
